@@ -181,6 +181,20 @@ func (tm *termer) call(cl *ssa.Call, idx int, env map[ssa.Value]*Term, d int) *T
 	cs := c.Callees(&cl.Call)
 	if len(cs) == 1 {
 		f := cs[0]
+		// a method value (`enc := x.Method; enc(a)`) or a method expression (`T.Method(x, a)`): the method itself, with
+		// the receiver as its first argument
+		if strings.HasPrefix(f.Synthetic, "bound method wrapper") || strings.HasPrefix(f.Synthetic, "thunk") {
+			if m := funcValueOf(f); m != nil && m != f {
+				if mc, isMC := cl.Call.Value.(*ssa.MakeClosure); isMC && strings.HasPrefix(f.Synthetic, "bound") {
+					var recv []*Term
+					for _, b := range mc.Bindings {
+						recv = append(recv, tm.term(b, env, d+1))
+					}
+					args = append(recv, args...)
+				}
+				f = m
+			}
+		}
 		name := f.String()
 		if op, ok := termLeaves[name]; ok {
 			return pick(T(op, args...), idx, cl)
